@@ -7,7 +7,7 @@
    number-system independent theorems C11_nan_step_raises / C11_nr_wrapper_status). *)
 From Coq Require Import Reals ZArith List Bool Lia Lra QArith.
 From Sky Require Import Result Num NumR G_minimize M_Minimize M_MinimizeX S_Minimize
-  P_Minimize P_MinimizeWrap P_MinimizeScan.
+  P_Minimize P_MinimizeWrap P_MinimizeScan P_MinimizeDeep.
 Import ListNotations.
 Open Scope R_scope.
 
@@ -179,6 +179,203 @@ Theorem C11_objective_closure : forall (mk : Z -> Z) (v nsidx vns : Z),
   mx_closure_gen_eval_recarray (mx_closure_gen_recarray (mk v)) = mk v.
 Proof. exact K_mx_closure. Qed.
 Print Assumptions C11_objective_closure.
+
+(* ================= second layer ================= *)
+
+(* converse of the -2 / -1 status clauses, at the level where it is true: whenever the loop tests its
+   condition AT a bound with budget left and the Newton step there points outward, the exit is forced with
+   that flag, that point, its value, and without a further step (the result-level converse is false:
+   C11_status_converse_refuted) *)
+Theorem C11_nr_forced_exit : forall erfR obj tol lo hi max_steps fuel niter st fp,
+  nr_cond_num (RNum erfR) tol st fp = true -> (niter < max_steps)%Z ->
+  (- snd3 (obj lo) / thd3 (obj lo) < 0 ->
+   exists r, nr_loop (RNum erfR) obj tol lo hi (S fuel) max_steps niter lo st fp = Ok r /\
+     r_flag r = (-2)%Z /\ r_x r = lo /\ r_f r = fst3 (obj lo) /\ r_niter r = niter /\
+     r_step r = - snd3 (obj lo) / thd3 (obj lo) /\ r_trace r = [lo]) /\
+  (lo <> hi -> 0 < - snd3 (obj hi) / thd3 (obj hi) ->
+   exists r, nr_loop (RNum erfR) obj tol lo hi (S fuel) max_steps niter hi st fp = Ok r /\
+     r_flag r = (-1)%Z /\ r_x r = hi /\ r_f r = fst3 (obj hi) /\ r_niter r = niter /\
+     r_step r = - snd3 (obj hi) / thd3 (obj hi) /\ r_trace r = [hi]).
+Proof. exact thm_nr_forced_exit. Qed.
+Print Assumptions C11_nr_forced_exit.
+
+(* initial value on a bound with the slope pointing outward: immediate forced exit, one evaluation *)
+Theorem C11_nr_initial_on_bound : forall erfR obj tol lo hi max_steps,
+  (0 < max_steps)%Z -> lo < hi ->
+  (- snd3 (obj lo) / thd3 (obj lo) < 0 ->
+     exists r, nr1d (RNum erfR) obj tol lo hi max_steps lo = Ok r /\ r_flag r = (-2)%Z /\ r_x r = lo /\
+               r_f r = fst3 (obj lo) /\ r_niter r = 0%Z /\ r_trace r = [lo]) /\
+  (0 < - snd3 (obj hi) / thd3 (obj hi) ->
+     exists r, nr1d (RNum erfR) obj tol lo hi max_steps hi = Ok r /\ r_flag r = (-1)%Z /\ r_x r = hi /\
+               r_f r = fst3 (obj hi) /\ r_niter r = 0%Z /\ r_trace r = [hi]).
+Proof. exact nr1d_initial_on_bound. Qed.
+Print Assumptions C11_nr_initial_on_bound.
+
+(* the guard `init <= hi` of C11_nr_bounds is only needed for max_steps = 0 (C11_guard_witnesses) *)
+Theorem C11_nr_bounds_any_init : forall erfR obj tol lo hi max_steps init r,
+  (0 < max_steps)%Z -> lo <= hi ->
+  nr1d (RNum erfR) obj tol lo hi max_steps init = Ok r -> lo <= r_x r <= hi.
+Proof. exact nr1d_bounds_any_init. Qed.
+Print Assumptions C11_nr_bounds_any_init.
+
+(* NR + scan: x, f, flag, last step and trace all belong to ONE scan step — the first one attaining the
+   smallest minimum; niter is the total over the scan *)
+Theorem C11_scan_selected : forall erfR func tol max_steps bounds i0 rest p2s i1 x r,
+  scan2d (RNum erfR) func tol max_steps bounds p2s (i0 :: i1 :: rest) = Ok (x, r) ->
+  exists pre p2 post r0,
+    p2s = pre ++ p2 :: post /\
+    nr1d_vec (RNum erfR) func tol max_steps bounds (i0 :: p2 :: rest) = Ok (x, r0) /\
+    r_x r = r_x r0 /\ r_f r = r_f r0 /\ r_flag r = r_flag r0 /\ r_step r = r_step r0 /\
+    r_trace r = r_trace r0 /\
+    r_niter r = fold_right (fun q acc =>
+                  ((match nr1d_vec (RNum erfR) func tol max_steps bounds (i0 :: q :: rest) with
+                    | Ok xr => r_niter (snd xr) | Err _ => 0 end) + acc)%Z) 0%Z p2s /\
+    (forall q, In q pre -> exists xr,
+       nr1d_vec (RNum erfR) func tol max_steps bounds (i0 :: q :: rest) = Ok xr /\ r_f r < r_f (snd xr)) /\
+    (forall q, In q post -> exists xr,
+       nr1d_vec (RNum erfR) func tol max_steps bounds (i0 :: q :: rest) = Ok xr /\ r_f r <= r_f (snd xr)).
+Proof. exact thm_scan_selected. Qed.
+Print Assumptions C11_scan_selected.
+
+Theorem C11_scan_not_below_initial : forall erfR func tol max_steps lo hi bs i0 rest p2s i1 x r,
+  (0 <= max_steps)%Z ->
+  scan2d (RNum erfR) func tol max_steps ((lo, hi) :: bs) p2s (i0 :: i1 :: rest) = Ok (x, r) ->
+  In i1 p2s ->
+  convex_fo (fun ns => fst3 (func (ns :: i1 :: rest))) (fun ns => snd3 (func (ns :: i1 :: rest))) ->
+  exists xi ri,
+    nr1d_vec (RNum erfR) func tol max_steps ((lo, hi) :: bs) (i0 :: i1 :: rest) = Ok (xi :: i1 :: rest, ri) /\
+    r_f r <= r_f ri /\
+    r_f r <= fst3 (func (i0 :: i1 :: rest)) + Rabs (snd3 (func (xi :: i1 :: rest))) * Rabs (i0 - xi).
+Proof. exact thm_scan_not_below_initial. Qed.
+Print Assumptions C11_scan_not_below_initial.
+
+(* NR + scan behind the wrapper (any number system) *)
+Theorem C11_scan_wrapper_status : forall (T : Type) (N : Num T) func tol max_steps max_reps bounds p2s
+    uniform initials x f st reps,
+  minimize_scan N func tol max_steps max_reps bounds p2s uniform initials = Ok (x, f, st, reps) ->
+  (r_flag st <= 0)%Z /\ reps = 0%Z /\ f = r_f st /\
+  scan2d N func tol max_steps bounds p2s initials = Ok (x, st).
+Proof. intros T N. exact (minimize_scan_status N). Qed.
+Print Assumptions C11_scan_wrapper_status.
+
+(* TCLLHRatio.maximize with NR + scan, end to end *)
+Theorem C11_maximize_scan : forall erfR llh tol max_steps max_reps lo hi bs p2s uniform i0 i1 rest ll x st,
+  (0 <= max_steps)%Z ->
+  maximize_scan (RNum erfR) llh tol max_steps max_reps ((lo, hi) :: bs) p2s uniform (i0 :: i1 :: rest) = Ok (ll, x, st) ->
+  (r_flag st <= 0)%Z /\
+  (exists p2, In p2 p2s /\ x = r_x st :: p2 :: rest /\ ll = fst3 (llh x) /\ lo <= i0 /\
+              (lo <= hi -> i0 <= hi -> lo <= r_x st <= hi)) /\
+  (forall q, In q p2s -> exists xq rq,
+      nr1d_vec (RNum erfR) (neg_obj (RNum erfR) llh) tol max_steps ((lo, hi) :: bs) (i0 :: q :: rest)
+        = Ok (xq :: q :: rest, rq) /\
+      fst3 (llh (xq :: q :: rest)) <= ll) /\
+  (In i1 p2s ->
+   (forall a b, fst3 (llh (b :: i1 :: rest)) <=
+                fst3 (llh (a :: i1 :: rest)) + snd3 (llh (a :: i1 :: rest)) * (b - a)) ->
+   exists xi, fst3 (llh (i0 :: i1 :: rest)) - Rabs (snd3 (llh (xi :: i1 :: rest))) * Rabs (i0 - xi) <= ll).
+Proof. exact maximize_scan_value. Qed.
+Print Assumptions C11_maximize_scan.
+
+(* wrapper: the returned point is exactly the componentwise projection of the converged run's point onto the
+   bounds — lower and upper violations in the same vector, any length *)
+Theorem C11_wrapper_clip_exact : forall erfR (St : Type)
+    (impl : Z -> list R -> res (list R * R * St)) (conv rep : St -> bool)
+    (reeval : list R -> res R) bounds uniform max_reps initials x f st reps,
+  Forall (fun b => fst b <= snd b) bounds ->
+  minimize (RNum erfR) impl conv rep reeval bounds uniform max_reps initials = Ok (x, f, st, reps) ->
+  exists ini x0 f0,
+    impl reps ini = Ok (x0, f0, st) /\ conv st = true /\
+    x = map (fun p => clipR (fst (snd p)) (snd (snd p)) (fst p)) (combine x0 bounds) /\
+    length x0 = length bounds /\
+    ((Forall2 (fun xi b => fst b <= xi <= snd b) x0 bounds /\ x = x0 /\ f = f0) \/
+     (Exists (fun p => fst p < fst (snd p) \/ snd (snd p) < fst p) (combine x0 bounds) /\ reeval x = Ok f)).
+Proof. exact thm_wrapper_clip_exact. Qed.
+Print Assumptions C11_wrapper_clip_exact.
+
+(* oracle contract "reported value = objective at the reported point" (proved for NR: C11_nr_fmin) =>
+   the wrapper's reported minimum is the objective at its reported point *)
+Theorem C11_wrapper_fmin : forall erfR (St : Type)
+    (impl : Z -> list R -> res (list R * R * St)) (conv rep : St -> bool)
+    (reeval : list R -> res R) bounds uniform max_reps initials x f st reps,
+  (forall k ini x0 f0 st0, impl k ini = Ok (x0, f0, st0) -> reeval x0 = Ok f0) ->
+  minimize (RNum erfR) impl conv rep reeval bounds uniform max_reps initials = Ok (x, f, st, reps) ->
+  reeval x = Ok f.
+Proof. intros erfR St. exact (minimize_fmin_consistent erfR). Qed.
+Print Assumptions C11_wrapper_fmin.
+
+(* what the wrapper does with a value that compares neither below the lower nor above the upper bound (in IEEE
+   arithmetic: NaN): it is handed through unchanged — the in-bounds guarantee needs an oracle that returns
+   numbers (C11_wrapper_nan_refuted) *)
+Theorem C11_wrapper_passthrough : forall (T : Type) (N : Num T) (St : Type)
+    (impl : Z -> list T -> res (list T * T * St)) (conv rep : St -> bool)
+    (reeval : list T -> res T) uniform max_reps i0 lo hi x0 f0 st,
+  impl 0%Z [i0] = Ok ([x0], f0, st) -> conv st = true ->
+  nltb N x0 lo = false -> nltb N hi x0 = false ->
+  minimize N impl conv rep reeval [(lo, hi)] uniform max_reps [i0] = Ok ([x0], f0, st, 0%Z).
+Proof. intros T N St. exact (minimize_passthrough N). Qed.
+Print Assumptions C11_wrapper_passthrough.
+
+(* the NR objective closure: all three components are functions of the argument v only *)
+Theorem C11_closure_components : forall erfR (V Rc : Type) (mk : V -> Rc) (ev : V -> Rc -> R * (Z -> R))
+    (g2 : R -> Z -> Rc -> R) (at_ : V -> Z -> R) (ns_pidx : Z) (v : V),
+  closure_nr (RNum erfR) mk ev g2 at_ ns_pidx v =
+    (- fst (ev v (mk v)), - snd (ev v (mk v)) ns_pidx, - g2 (at_ v ns_pidx) ns_pidx (mk v)).
+Proof. intros erfR V Rc. exact (closure_nr_spec erfR). Qed.
+Print Assumptions C11_closure_components.
+
+(* the best scan step is stored as (xmin, fmin, status) of the same NR run and niter as the running total;
+   calculate_ns_grad2 receives ns = fitparam_values[ns_pidx] and ns_pidx *)
+Theorem C11_scan_store : forall x f st nt ns pidx : Z,
+  scan_best_x x = x /\ scan_best_f f = f /\ scan_best_status st = st /\ scan_total_niter nt = nt /\
+  mx_closure_grad2_kw_ns ns = ns /\ mx_closure_grad2_kw_pidx pidx = pidx.
+Proof. exact K_scan_store. Qed.
+Print Assumptions C11_scan_store.
+
+(* ---- refuted statements and guard witnesses (executed in the number system with NaN) ---- *)
+(* the result-level converse "x = lo and the Newton step at lo points outward => warnflag -2" is FALSE: a step
+   shorter than ns_tol that is clipped onto the bound ends with warnflag 0 *)
+Example C11_status_converse_refuted :
+  exists obj tol lo hi max_steps init r,
+    nr1d XNum obj tol lo hi max_steps init = Ok r /\ r_x r = lo /\
+    xq_ltb (nr_step XNum (snd3 (obj lo)) (thd3 (obj lo))) (XFin 0) = true /\ r_flag r = 0%Z.
+Proof.
+  exists (fun x => (xq_mul (xq_add x (XFin (3 # 10000))) (xq_add x (XFin (3 # 10000))),
+                    xq_mul (xz 2) (xq_add x (XFin (3 # 10000))), xz 2)),
+         (XFin (1 # 1000)), (xz 0), (xz 10), 100%Z, (XFin (5 # 10000)).
+  eexists. split; [vm_compute; reflexivity|]. repeat split; vm_compute; reflexivity.
+Qed.
+
+(* guards: lo < hi (with lo = hi warnflag -2 comes with a POSITIVE step); 0 <= max_steps (max_steps = -1 gives
+   warnflag 0 without any iteration); init <= hi or 0 < max_steps (max_steps = 0 returns the out-of-bounds
+   initial value from NR — with warnflag 1, so the wrapper raises); f'' = 0 is a meaningful IEEE path (a
+   linear objective is driven to the bound by an infinite step) that the real-number theorems exclude *)
+Example C11_guard_witnesses :
+  let lin := fun s : Z => fun x : xq => (xq_mul (xz s) x, xz s, xz 2) in
+  (match nr1d XNum (lin (-1)%Z) (XFin (1 # 1000)) (xz 0) (xz 0) 100 (xz 0) with
+   | Ok r => (r_flag r, xq_ltb (XFin 0) (r_step r)) | Err _ => (9%Z, false) end) = ((-2)%Z, true) /\
+  (match nr1d XNum (lin 1%Z) (XFin (1 # 1000)) (xz 0) (xz 10) (-1) (xz 5) with
+   | Ok r => (r_flag r, r_niter r) | Err _ => (9%Z, 9%Z) end) = (0%Z, 0%Z) /\
+  (match nr1d XNum (lin 1%Z) (XFin (1 # 1000)) (xz 0) (xz 10) 0 (xz 11) with
+   | Ok r => (r_flag r, xq_ltb (xz 10) (r_x r)) | Err _ => (9%Z, false) end) = (1%Z, true) /\
+  minimize_nr XNum (fun x => match x with ns :: _ => lin 1%Z ns | [] => (XNaN, XNaN, XNaN) end)
+    (XFin (1 # 1000)) 0 100 [(xz 0, xz 10)] (fun _ => []) [xz 11] = Err ValueError /\
+  (match nr1d XNum (fun x : xq => (x, xz 1, xz 0)) (XFin (1 # 1000)) (xz 0) (xz 10) 100 (xz 5) with
+   | Ok r => (r_flag r, r_niter r, r_trace r) | Err _ => (9%Z, 9%Z, []) end) = ((-2)%Z, 1%Z, [xz 5; xz 0]).
+Proof. cbv zeta. repeat split; vm_compute; reflexivity. Qed.
+
+(* the wrapper clips lower and upper violations of the same vector componentwise; an oracle that claims
+   convergence with a NaN point is handed through: the in-bounds guarantee fails for NaN *)
+Example C11_wrapper_nan_refuted :
+  clip_vec XNum [xz (-1); xz 5; XFin (1 # 2)] [(xz 0, xz 1); (xz 0, xz 1); (xz 0, xz 1)]
+    = Ok ([xz 0; xz 1; XFin (1 # 2)], true) /\
+  exists (impl : Z -> list xq -> res (list xq * xq * bool)) x f,
+    minimize XNum impl (fun c => c) (fun _ => false) (fun _ => Err ValueError) [(xz 0, xz 1)] (fun _ => []) 3 [xz 0]
+      = Ok (x, f, true, 0%Z) /\
+    x = [XNaN] /\ xq_leb (xz 0) XNaN = false /\ xq_leb XNaN (xz 1) = false.
+Proof.
+  split; [vm_compute; reflexivity|].
+  exists (fun _ _ => Ok ([XNaN], xz 7, true)), [XNaN], (xz 7). repeat split; vm_compute; reflexivity.
+Qed.
 
 (* ---- non-vacuity ---- *)
 (* a strongly convex objective with non-vanishing second derivative meets the hypotheses *)
